@@ -787,7 +787,7 @@ func RunRPCServer(portrpc int, block bool) {
 	var spc SimPulseSourceConfig
 	spc.SampleRate = 1000.0
 	log.Printf("Dastard config file: %s\n", viper.ConfigFileUsed())
-	err = viper.UnmarshalKey("simpulse", &spc)
+	err = configUnmarshalKey("simpulse", &spc)
 	if spc.Nchan == 0 { // default to a valid Nchan value to avoid ConfigureSimPulseSource throwing an error
 		spc.Nchan = 1
 	}
@@ -799,7 +799,7 @@ func RunRPCServer(portrpc int, block bool) {
 	}
 	var tsc TriangleSourceConfig
 	tsc.SampleRate = 1000.0
-	err = viper.UnmarshalKey("triangle", &tsc)
+	err = configUnmarshalKey("triangle", &tsc)
 	// Default to a valid Nchan value to avoid ConfigureTriangleSource throwing an error
 	if tsc.Nchan == 0 {
 		tsc.Nchan = 1
@@ -811,7 +811,7 @@ func RunRPCServer(portrpc int, block bool) {
 		}
 	}
 	var lsc LanceroSourceConfig
-	err = viper.UnmarshalKey("lancero", &lsc)
+	err = configUnmarshalKey("lancero", &lsc)
 	if err == nil {
 		_ = sourceControl.ConfigureLanceroSource(&lsc, &okay)
 		// Don't panic on config errors: they are expected on any system w/o Lancero cards.
@@ -821,20 +821,20 @@ func RunRPCServer(portrpc int, block bool) {
 	// Set reasonable defaults when not in the config file.
 	asc.AbacoUnwrapOptions.Unwrap = true
 	asc.AbacoUnwrapOptions.ResetAfter = 20000
-	err = viper.UnmarshalKey("abaco", &asc)
+	err = configUnmarshalKey("abaco", &asc)
 	if err == nil {
 		_ = sourceControl.ConfigureAbacoSource(&asc, &okay)
 		// intentionally not checking for configure errors since it might fail on non abaco systems
 	}
 
 	var rsc RoachSourceConfig
-	err = viper.UnmarshalKey("roach", &rsc)
+	err = configUnmarshalKey("roach", &rsc)
 	if err == nil {
 		_ = sourceControl.ConfigureRoachSource(&rsc, &okay)
 		// intentionally not checking for configure errors since it might fail on non roach systems
 	}
 
-	err = viper.UnmarshalKey("status", &sourceControl.status)
+	err = configUnmarshalKey("status", &sourceControl.status)
 	// Set some defaults that won't cause problems down the line.
 	status := &sourceControl.status
 	if status.Npresamp <= 0 {
@@ -854,7 +854,7 @@ func RunRPCServer(portrpc int, block bool) {
 		sourceControl.broadcastStatus()
 	}
 	var ws WritingState
-	err = viper.UnmarshalKey("writing", &ws)
+	err = configUnmarshalKey("writing", &ws)
 	if err == nil {
 		wsSend := WritingState{BasePath: ws.BasePath} // only send the BasePath to clients
 		// other info like Active: true could be wrong, and is not useful
@@ -862,7 +862,7 @@ func RunRPCServer(portrpc int, block bool) {
 	}
 
 	var mapFileName string
-	err = viper.UnmarshalKey("tesmapfile", &mapFileName)
+	err = configUnmarshalKey("tesmapfile", &mapFileName)
 	if err == nil {
 		_ = mapServer.Load(&mapFileName, &okay)
 		// intentionally not checking for error, it ok if we fail to load a map file
